@@ -61,7 +61,7 @@ func (e *Environment) Snapshot() *Environment {
 		chain = append(chain, scope)
 	}
 	snap := NewEnvironment()
-	copied := make(map[uintptr]interface{})
+	copied := make(map[containerID]interface{})
 	for idx := len(chain) - 1; idx >= 0; idx-- {
 		for name, b := range chain[idx].vars {
 			snap.vars[name] = binding{value: copyValue(b.value, copied), source: b.source}
@@ -70,24 +70,32 @@ func (e *Environment) Snapshot() *Environment {
 	return snap
 }
 
+// containerID identifies an object (n < 0) or an array (its length) by the
+// address of its storage.
+type containerID struct {
+	addr uintptr
+	n    int
+}
+
 // copyValue returns a copy of a GlyphLang value that shares no object or array
 // with the original. Objects and arrays are Go maps and slices which field and
 // index assignment write in place, so code running in another goroutine needs
-// its own. Two bindings of one object stay one object in the copy (copied maps
-// the original's address to its copy), which also ends the walk on a cycle.
+// its own. Two bindings of one container stay one container in the copy (copied
+// maps the original to its copy), which also ends the walk on a value that
+// contains itself: a container is entered there before its elements are visited.
 // Everything else - scalars, functions, provider handles - is shared as it is.
-func copyValue(v interface{}, copied map[uintptr]interface{}) interface{} {
+func copyValue(v interface{}, copied map[containerID]interface{}) interface{} {
 	switch x := v.(type) {
 	case map[string]interface{}:
 		if x == nil {
 			return x
 		}
-		key := reflect.ValueOf(x).Pointer()
-		if c, ok := copied[key]; ok {
+		id := containerID{reflect.ValueOf(x).Pointer(), -1}
+		if c, ok := copied[id]; ok {
 			return c
 		}
 		c := make(map[string]interface{}, len(x))
-		copied[key] = c
+		copied[id] = c
 		for k, e := range x {
 			c[k] = copyValue(e, copied)
 		}
@@ -96,7 +104,12 @@ func copyValue(v interface{}, copied map[uintptr]interface{}) interface{} {
 		if x == nil {
 			return x
 		}
+		id := containerID{reflect.ValueOf(x).Pointer(), len(x)}
+		if c, ok := copied[id]; ok {
+			return c
+		}
 		c := make([]interface{}, len(x))
+		copied[id] = c
 		for i, e := range x {
 			c[i] = copyValue(e, copied)
 		}
